@@ -173,7 +173,7 @@ PROPS = {
         "modules": ["CambrianModel.Props.C08"],
         "theorems": ["Cambrian.Props.C08_seeds", "Cambrian.Props.C08_same", "Cambrian.Props.C08_count",
                      "Cambrian.Props.C08_ids", "Cambrian.Props.C08_first", "Cambrian.Props.C08_config_pos"],
-        "correspondences": ["ctl", "pop", "codec", "spec", "run"],
+        "correspondences": ["ctl", "pop", "codec", "spec", "run", "proc"],
         "trusted": CTL_TRUST,
         "assumptions": ["float laws used: none", "sample size >= 1 (AlgoConfigBuilder rejects 0)"],
     },
@@ -184,7 +184,7 @@ PROPS = {
                      "Cambrian.Props.C04_target", "Cambrian.Props.C04_drain", "Cambrian.Props.C04_returns_best",
                      "Cambrian.Props.C04_one_abort_request", "Cambrian.Props.C04_terminate_first", "Cambrian.Props.C04_terminate_again",
                      "Cambrian.Props.C04_time_limit_once"],
-        "correspondences": ["ctl", "proc"],
+        "correspondences": ["ctl", "proc", "run"],
         "trusted": CTL_TRUST,
         "assumptions": ["float laws used: none", "'delivered' = taken by the controller loop; a request racing with a completion may be honoured one completion later"],
     },
@@ -199,7 +199,7 @@ PROPS = {
         "modules": ["CambrianModel.Props.C03"],
         "theorems": ["Cambrian.Props.C03_le", "Cambrian.Props.C03_zero", "Cambrian.Props.C03_starts_eq_pushed",
                      "Cambrian.Props.C03_exact", "Cambrian.Props.C03_exact_report"],
-        "correspondences": ["ctl", "run"],
+        "correspondences": ["ctl", "run", "proc"],
         "trusted": CTL_TRUST,
         "assumptions": ["float laws used: none"],
     },
